@@ -8,9 +8,9 @@ use crate::{
 pub fn run(tier: &str, seed: u64, only: Option<&str>) -> Run {
     let mut run = Run::default();
     let (n_random, prefixes): (usize, &[usize]) = if tier == "thorough" {
-        (6000, &[1, 2, 5, 11, 33, 90])
+        (40000, &[1, 2, 5, 11, 33, 90, 250])
     } else {
-        (700, &[3, 8, 25])
+        (4000, &[3, 8, 25])
     };
     for c in cases(seed ^ 0x14, n_random, prefixes) {
         if only.is_some_and(|o| o != c.id) {
